@@ -48,6 +48,10 @@ struct LLVMTraits {
     {
         return true;
     }
+    static double hang_s()
+    {
+        return 600; // the first compilation in a worker initialises LLVM; the box may be heavily shared
+    }
     static std::unique_ptr<V> reload(V &v)
     {
         std::unique_ptr<V> r(new V());
@@ -101,26 +105,32 @@ int main(int argc, char **argv)
     return 2;
 #else
     bool thorough = opts().thorough();
-    // terms: n <= 1 with every configuration; n = 2 (thorough) with the default configuration
-    PoolCfg pc = pool_cfg(thorough ? 2 : 1);
+    // crashing children must die quickly: no core files, no external symbolizer for LLVM's fatal-error stack traces
+    setenv("LLVM_DISABLE_SYMBOLIZATION", "1", 1);
+    struct rlimit nocore = {0, 0};
+    setrlimit(RLIMIT_CORE, &nocore);
+    // terms with <= 1 operation.  quick: 5-leaf alphabet, double x all 8 configurations, float / long double x
+    // opt_level {0,3} x cse {off,on}.  thorough: 10-leaf alphabet x all 24 configurations.
+    PoolCfg pc = pool_cfg(thorough ? 1 : 0);
     pc.maxn = 1;
     TermPool P;
     build_pool(P, pc, "pool");
     std::vector<Recipe> none, deep;
-    EvalChecks<TD>::run_terms(P, "terms:double", none, {});
+    std::vector<int> all8 = {0, 1, 2, 3, 4, 5, 6, 7}, four = {0, 1, 6, 7};
+    EvalChecks<TD>::run_terms(P, "terms:double", all8, none, {});
     phase_log("C14", "terms:double n<=1");
-    EvalChecks<TF>::run_terms(P, "terms:float", none, {});
+    EvalChecks<TF>::run_terms(P, "terms:float", thorough ? all8 : four, none, {});
 #ifdef SYMENGINE_HAVE_LLVM_LONG_DOUBLE
-    EvalChecks<TL>::run_terms(P, "terms:longdouble", none, {});
+    EvalChecks<TL>::run_terms(P, "terms:longdouble", thorough ? all8 : four, none, {});
 #endif
     phase_log("C14", "terms:float,longdouble n<=1");
     std::string deepbound;
     // tuples
-    EvalChecks<TD>::run_tuples("tuples:double", thorough ? 3 : 2);
+    EvalChecks<TD>::run_tuples("tuples:double", thorough ? 3 : 2, thorough ? all8 : four);
     phase_log("C14", "tuples:double");
-    EvalChecks<TF>::run_tuples("tuples:float", 2);
+    EvalChecks<TF>::run_tuples("tuples:float", thorough ? 2 : 1, thorough ? all8 : four);
 #ifdef SYMENGINE_HAVE_LLVM_LONG_DOUBLE
-    EvalChecks<TL>::run_tuples("tuples:longdouble", 2);
+    EvalChecks<TL>::run_tuples("tuples:longdouble", thorough ? 2 : 1, thorough ? all8 : four);
 #endif
     phase_log("C14", "tuples:float,longdouble");
 
@@ -131,18 +141,18 @@ int main(int argc, char **argv)
         TermPool P0;
         build_pool(P0, p0, "pool0");
         deep = P0.level_recipes(p0, 2);
-        EvalChecks<TD>::run_terms(P0, "terms2:double", deep, {6, 7}, false);
+        EvalChecks<TD>::run_terms(P0, "terms2:double", {}, deep, {6, 7}, false);
         phase_log("C14", "terms:double n=2");
         deepbound = "; plus all " + std::to_string(deep.size()) + " transitions into level 2 over " + std::to_string(p0.leavesV.size())
                     + " value leaves for llvm-double at opt_level 3 with symbolic_cse off and on";
         R.counters["level2_recipes(transitions, not de-duplicated)"] = deep.size();
     }
     // histories: every type; depth 3 (thorough: depth 4 for double)
-    EvalChecks<TD>::run_histories("histories:double", thorough ? 4 : 3);
+    EvalChecks<TD>::run_histories("histories:double", thorough ? 3 : 2);
     phase_log("C14", "histories:double");
-    EvalChecks<TF>::run_histories("histories:float", thorough ? 3 : 2);
+    EvalChecks<TF>::run_histories("histories:float", 2);
 #ifdef SYMENGINE_HAVE_LLVM_LONG_DOUBLE
-    EvalChecks<TL>::run_histories("histories:longdouble", thorough ? 3 : 2);
+    EvalChecks<TL>::run_histories("histories:longdouble", 2);
 #endif
     phase_log("C14", "histories:float,longdouble");
     R.states = P.V.size() + P.B.size();
@@ -151,10 +161,12 @@ int main(int argc, char **argv)
     R.counters["pool_boolean_states"] = P.B.size();
     R.bound_completed = "terms: all expressions with <= 1 operation over " + std::to_string(pc.leavesV.size()) + " value + " + std::to_string(pc.leavesB.size())
                         + " boolean leaves (" + std::to_string(P.V.size() + P.B.size())
-                        + " states) x {double,float,long double} x opt_level 0-3 x symbolic_cse on/off x dumps/loads x 3x3 grid" + deepbound
-                        + "; tuples: all ordered tuples of <= " + (thorough ? "3 (double), 2 (float, long double)" : "2")
-                        + " outputs from a 12-expression pool x 3 input vectors x 8 configurations; histories: all sequences of <= "
-                        + (thorough ? "4 (double), 3 (float, long double)" : "3 (double), 2 (float, long double)") + " init calls from a menu of 10 (3 failing)";
+                        + " states) x " + (thorough ? "{double,float,long double} x opt_level 0-3" : "{double x opt_level 0-3, float / long double x opt_level 0,3}")
+                        + " x symbolic_cse on/off x dumps/loads x 3x3 grid" + deepbound
+                        + "; tuples: all ordered tuples of <= " + (thorough ? "3 (double), 2 (float, long double)" : "2 (double), 1 (float, long double)")
+                        + " outputs from a 12-expression pool x 3 input vectors x " + (thorough ? "8 configurations" : "opt_level {0,3} x cse {off,on}")
+                        + "; histories: all sequences of <= " + (thorough ? "3 (double), 2 (float, long double)" : "2")
+                        + " init calls from a menu of 10 (3 failing), one process per history";
     R.rule = "same typed term algebra, tuple pool and init menu as C13, compiled by the LLVM visitors; every compiled function is called on the grid x in "
              "{-1.5,0.5,2} x y in {-0.75,1,3} and compared with RealEval within 4*delta for the target format (u = 2^-24 / 2^-53 / 2^-64); the object "
              "code from dumps() is loaded into a new visitor which must return bit-identical outputs; every init history on one visitor must be "
